@@ -201,10 +201,11 @@ Proof.
   - intros s c x [].
 Qed.
 
-(* HuffmanTable.Build does not panic on a valid table *)
+(* HuffmanTable.Build returns the table for every valid table (it never panics on ANY table:
+   build_table_never_panics in JllProofsHuff) *)
 Theorem build_table_no_panic : forall bits vals, table_facts bits vals ->
   build_table bits vals = Ok (ht_of bits vals).
-Proof. intros bits vals F. unfold build_table. rewrite (lookup_ok_facts bits vals F). reflexivity. Qed.
+Proof. exact build_table_facts. Qed.
 
 (* ---------- the lookupTable fast path of HuffmanDecoder.Decode is dead ---------- *)
 (* Decode takes the fast path only when nBits >= 8; starting from the initial state (nBits = 0)
